@@ -49,6 +49,7 @@ Definition step_ev (s : est) (w : who) : option event :=
               | None => None
               | Some g => match g with
                           | GChk => ev_ kR cellState (st s) 0 0
+                          | GSw => ev_ kR cellState (st s) 0 0
                           | GCb => ev_ kMark cellMark 10 0 0
                           | GCbEnd => ev_ kMark cellMark 11 0 0
                           | GClr => ev_ kW cellInproc 0 0 0
